@@ -31,6 +31,11 @@ HISTORIES = [
     ("store_existing_minus", BASE, {"pre": PRE + [("store", "A", [[2, 2]], "+", ["Seen"], False, False)],
                                     "body": [("store", "A", [[1, 1]], "-", ["Seen"], False, False)]},
      infl("Store", src="inbox", set_=[[1, 1]], flags=["Seen"], mode="-"), {}),
+    # a sequence that existed, became empty (its row is deleted) and gets exactly the same members again
+    ("store_off_on", BASE, {"pre": PRE + [("store", "A", [[2, 2]], "+", ["Draft"], False, False),
+                                           ("store", "A", [[2, 2]], "-", ["Draft"], False, False)],
+                            "body": [("store", "A", [[2, 2]], "+", ["Draft"], False, False)]},
+     infl("Store", src="inbox", set_=[[2, 2]], flags=["Draft"], mode="+"), {}),
     ("fetch_body", BASE, {"pre": PRE, "body": [("fetchbody", "A", [[2, 3]], False)]}, infl("Fetch", src="inbox", set_=[[2, 3]]), {}),
     ("copy", BASE, {"pre": PRE, "body": [("copy", "A", [[1, 3]], "b", False)]}, infl("Copy", src="inbox", dst="b", set_=[[1, 3]]), {}),
     ("move", BASE, {"pre": PRE, "body": [("move", "A", [[1, 1], [3, 3]], "b", True)]},
